@@ -953,6 +953,8 @@ def eager_stack_homogeneous(name, *parts):
 @dispatch(str, str, Variadic[Tensor])
 def eager_cat_homogeneous(name, part_name, *parts):
     assert parts
+    if part_name != name:
+        assert not any(name in part.inputs for part in parts)
     output = parts[0].output
     inputs = OrderedDict([(part_name, None)])
     for part in parts:
